@@ -2,7 +2,12 @@
 
 package nodis
 
-import "sync/atomic"
+import (
+	"sync/atomic"
+	"time"
+
+	"github.com/diiyw/nodis/ds/list"
+)
 
 // Schedule points for the verification harness: with the verif tag a controller installed by
 // VerifSetController is called at the places where tx.go looks a key up, has acquired a key
@@ -21,4 +26,39 @@ func VerifSetController(f func(point string)) {
 		f = func(string) {}
 	}
 	verifController.Store(f)
+}
+
+// verifTimer lets the harness replace the timeout timer of a blocking pop by a channel it fires
+// itself (nil: use the real timer).
+var verifTimerHook atomic.Value // of func(d time.Duration) <-chan time.Time
+
+func verifTimer(d time.Duration) <-chan time.Time {
+	if f, ok := verifTimerHook.Load().(func(time.Duration) <-chan time.Time); ok && f != nil {
+		return f(d)
+	}
+	return nil
+}
+
+// VerifSetTimer installs (or, with nil, removes) the timer hook.
+func VerifSetTimer(f func(d time.Duration) <-chan time.Time) {
+	if f == nil {
+		f = func(time.Duration) <-chan time.Time { return nil }
+	}
+	verifTimerHook.Store(f)
+}
+
+// VerifBlockDump returns, per key, how many wake-up channels are registered.
+func (n *Nodis) VerifBlockDump() map[string]int {
+	n.blockingKeysMutex.RLock()
+	defer n.blockingKeysMutex.RUnlock()
+	out := map[string]int{}
+	n.blockingKeys.Scan(func(key string, l *list.LinkedListG[chan string]) bool {
+		c := 0
+		l.ForRange(func(chan string) bool { c++; return true })
+		if c > 0 {
+			out[key] = c
+		}
+		return true
+	})
+	return out
 }
